@@ -67,10 +67,20 @@ def device_graph(spec):
     return g
 
 
-def build_passes(spec):
+def build_passes(spec, shared=None):
+    """shared = (pass objects, natives) to put the SAME pass instances into another Passes object
+    (another device / another on_qubits restriction)"""
     from qibo.transpiler import optimizer, placer, router, unroller
     from qibo.transpiler.pipeline import Passes
     pl = spec["pipeline"]
+    if shared is not None:
+        passes, nat = shared
+        kwargs = dict(connectivity=device_graph(spec))
+        if nat is not None:
+            kwargs["native_gates"] = nat
+        if spec.get("on_qubits") is not None:
+            kwargs["on_qubits"] = list(spec["on_qubits"])
+        return Passes(passes, **kwargs), nat
     passes = []
     if pl.get("pre", True):
         passes.append(optimizer.Preprocessing())
@@ -553,18 +563,91 @@ def make_histories(tier, rng):
 
 def history_call_spec(hspec, i):
     c = hspec["circuits"][i]
-    return dict(nodes=hspec["nodes"], edges=hspec["edges"], on_qubits=hspec.get("on_qubits"),
+    dv = hspec["devices"][c["dev"]] if hspec.get("devices") else hspec
+    return dict(nodes=dv["nodes"], edges=dv["edges"], on_qubits=dv.get("on_qubits"),
                 pipeline=hspec["pipeline"], k=c["k"], wire_names=c["wire_names"], gates=c["gates"])
 
 
 def run_history(hspec, timeout=30.0):
-    """[(call spec, info)] for the calls of ONE Passes object on the circuits of the history"""
+    """[(call spec, info)] for the calls of ONE Passes object on the circuits of the history; with
+    hspec["devices"]: one Passes object per device variant, all SHARING the same pass instances
+    (router, placer, ...), called in the order of the circuits"""
     pre = build_passes(history_call_spec(hspec, 0))
+    by_dev = {}
     res = []
     for i in range(len(hspec["circuits"])):
         sp = history_call_spec(hspec, i)
-        res.append((sp, run_pipeline(sp, timeout=timeout, prebuilt=pre)))
+        if hspec.get("devices"):
+            dvi = hspec["circuits"][i]["dev"]
+            if dvi not in by_dev:
+                by_dev[dvi] = pre if not by_dev else build_passes(sp, shared=(pre[0].passes, pre[1]))
+            use = by_dev[dvi]
+        else:
+            use = pre
+        res.append((sp, run_pipeline(sp, timeout=timeout, prebuilt=use)))
     return res
+
+
+def make_device_histories(tier, rng):
+    """pass instances (in particular ONE router object) shared by several Passes objects whose
+    connectivity differs: another star centre / another graph on the same node names, or another
+    on_qubits restriction of one device; calls alternate between the Passes objects"""
+    out = []
+    nh = 36 if tier == "quick" else 160
+    nat_names = [None, None, "default", "U3_CZ"]
+    for h in range(nh):
+        mode = ("star", "graph", "on_qubits")[h % 3]
+        natn = rng.choice(nat_names)
+        if mode == "star":
+            n = 5
+            names = rng.choice([list(range(5)), [f"q{i}" for i in rng.sample(range(9), 5)]])
+            ctrs = rng.sample(range(5), 3)
+            devs = [dict(nodes=list(names), edges=[[names[c_], names[j]] for j in range(5) if j != c_], on_qubits=None) for c_ in ctrs]
+            router = rng.choice([["StarConnectivityRouter", {}], ["StarConnectivityRouter", {}], ["Sabre", {"seed": rng.randrange(100)}]])
+            placer = rng.choice([None, ["StarConnectivityPlacer", {}]])
+        elif mode == "graph":
+            n = rng.randint(4, 5)
+            names = rng.choice([list(range(n)), [f"q{i}" for i in rng.sample(range(9), n)]])
+            devs = []
+            for _ in range(3):
+                base = rng.choice([nx.path_graph(n), nx.cycle_graph(n), nx.star_graph(n - 1)])
+                perm = rng.sample(range(n), n)
+                devs.append(dict(nodes=list(names), edges=[[names[perm[a]], names[perm[b]]] for a, b in base.edges()], on_qubits=None))
+            router = rng.choice([["Sabre", {"seed": rng.randrange(100)}], ["ShortestPaths", {"seed": rng.randrange(100)}]])
+            placer = rng.choice([None, ["Random", {"seed": rng.randrange(100), "samples": 10}]])
+        else:
+            n = 5
+            g0 = rng.choice([nx.path_graph(5), nx.cycle_graph(5), nx.Graph([(0, 1), (1, 2), (2, 3), (2, 4)])])
+            g = R.label_variants(g0, rng, rng.choice(["id", "str", "perm"]))
+            nodes = list(g.nodes())
+            devs = []
+            for _ in range(3):
+                on = None
+                for _t in range(10):
+                    sel = rng.sample(nodes, rng.randint(3, 5))
+                    if nx.is_connected(g.subgraph(sel)):
+                        on = sel
+                        break
+                devs.append(dict(nodes=nodes, edges=[list(e) for e in g.edges()], on_qubits=on))
+            router = rng.choice([["Sabre", {"seed": rng.randrange(100)}], ["ShortestPaths", {"seed": rng.randrange(100)}]])
+            placer = None
+        circuits = []
+        for c in range(rng.randint(3, 5)):
+            dvi = c % len(devs) if c < len(devs) else rng.randrange(len(devs))
+            avail = devs[dvi]["on_qubits"] or devs[dvi]["nodes"]
+            k = len(avail) if mode == "star" else rng.randint(2, len(avail))
+            wn = rng.sample(avail, k)
+            ng = rng.randint(2, 8)
+            gs = R.fix_mid_measurements(R.gen_gates(rng, k, ng, pmid=0), rng) if natn is None else gen_float_gates(rng, k, ng, G2)
+            if not any(len(x[1]) == 2 and x[0] != "M" for x in gs):
+                a, b = rng.sample(range(k), 2)
+                gs.append(["CZ", [a, b], {}])
+            if rng.random() < 0.5:
+                gs += R.gen_trailing(rng, k)
+            circuits.append(dict(k=k, wire_names=wn, gates=gs, dev=dvi))
+        out.append((mode, dict(devices=devs, pipeline={"pre": True, "placer": placer, "router": router, "natives": natn},
+                               circuits=circuits)))
+    return out
 
 
 def defect_cases(rng):
@@ -884,18 +967,20 @@ def main(run):
     cases = make_cases(run.tier, rng) + defect_cases(rng)
     pending = []
     runs = [(devname, spec, run_pipeline(spec), None) for devname, spec in cases]
-    for devname, hspec in make_histories(run.tier, rng):
+    for devname, hspec in make_histories(run.tier, rng) + make_device_histories(run.tier, rng):
         for i, (sp, info) in enumerate(run_history(hspec)):
             runs.append((devname, sp, info, {"history": hspec, "call_index": i}))
             stats["history_calls"] = stats.get("history_calls", 0) + 1
             if i > 0:
-                stats["calls_on_a_reused_Passes_object"] = stats.get("calls_on_a_reused_Passes_object", 0) + 1
+                kk = "calls_with_shared_pass_instances_and_changed_connectivity" if hspec.get("devices") else "calls_on_a_reused_Passes_object"
+                stats[kk] = stats.get(kk, 0) + 1
     for devname, spec, info, hist in runs:
         bad = end_to_end(spec, info)
         if hist is not None:
             # a failure after the first call of a history is a state leak between calls of one Passes object
             # (keys stay the same as for single calls, so that open known findings keep matching)
-            note = f" [call {hist['call_index']} of a multi-call history on ONE Passes object]"
+            note = (f" [call {hist['call_index']} of a history whose Passes objects SHARE their pass instances while the connectivity changes]"
+                    if hist["history"].get("devices") else f" [call {hist['call_index']} of a multi-call history on ONE Passes object]")
             bad = [(k, w + note, {**e, **hist}) for k, w, e in bad]
         nontrivial = "out" in info and R.queue_canon(info["out"]) != R.queue_canon(info["circuit"])
         run.case(spec, nontrivial)
